@@ -16,6 +16,8 @@ VARIABLE i
 Doc(ctx) == IF ctx = "pub-string" THEN {"MalformedPointError"}
             ELSE IF ctx = "ecdh-bytes" THEN {"MalformedPointError"}
             ELSE IF ctx = "pub-der" THEN {"MalformedPointError", "UnexpectedDER"}
+            ELSE IF ctx \in {"pub-pem", "ecdh-der", "ecdh-pem"} THEN {"MalformedPointError", "UnexpectedDER"}
+            ELSE IF ctx = "public-key-ctor" THEN {"InvalidPointError"}
             ELSE IF ctx = "pub-point" THEN {"MalformedPointError"}
             ELSE IF ctx = "ecdh-curves" THEN {"InvalidCurveError"}
             ELSE IF ctx = "verify" THEN {"BadSignatureError"}
